@@ -1,4 +1,5 @@
 """C17 - a command line builds the same formula as the library call it stands for."""
+import os
 import random
 import re
 
@@ -487,3 +488,114 @@ SUBCHECKS = [
              rule="cnfgen -q/-v/--varnames on DIMACS output, 'cnfgen dimacs' (file and stdin), kthlist2pebbling (stdin and -i, with a transformation) versus 'cnfgen peb', cnfshuffle with all permutations off; oracle: the printed clauses are the library formula, -q prints no comment line, verbose prints the header, --varnames lists the names",
              required_labels=['options', 'k2p', 'dimacs', 'cnfshuffle', '-q', '--varnames', 'stdin', 'file']),
 ]
+
+
+# ---------------------------------------------------------------------------
+# graph constructions with 'save': the formula is built on the very graph that was stored
+
+def _read_kthlist(text):
+    n = None
+    edges = []
+    for line in text.splitlines():
+        if not line.strip() or line.startswith('c'):
+            continue
+        if ':' not in line:
+            n = int(line.strip())
+            continue
+        v, rest = line.split(':')
+        preds = [int(t) for t in rest.split()]
+        assert preds[-1] == 0
+        for u in preds[:-1]:
+            edges.append([u, int(v)])
+    return n, edges
+
+
+def _read_matrix(text):
+    rows = [l.split() for l in text.splitlines() if l.strip() and not l.lstrip().startswith('#')]
+    L, R = int(rows[0][0]), int(rows[0][1])
+    flat = [b for r in rows[1:] for b in r]
+    edges = [[i // R + 1, i % R + 1] for i, b in enumerate(flat) if b == '1']
+    return L, R, edges
+
+
+def run_saved(case):
+    import cnfgen
+    from cnfgen.formula.cnf import CNF
+    from cnfgen.formula.opb import OPB
+    from cnfgen.clitools.cmdline import CLIError
+    tool, name, pre, spec, seed = case['tool'], case['name'], case['pre'], case['spec'], case['seed']
+    cls = CNF if tool == 'cnfgen' else OPB
+    with catalog.Ctx() as ctx:
+        gtype = case['gtype']
+        path = ctx.path('matrix' if gtype == 'bipartite' else 'kthlist')
+        args = ['--seed', str(seed), name] + pre + spec + ['save', 'matrix' if gtype == 'bipartite' else 'kthlist', path] + case.get('post', [])
+        try:
+            F = cli.build(tool, args)
+        except CLIError:
+            return Outcome(rejected=True, nontrivial=False, labels=['rejected', name])
+        what = "{} {}".format(tool, ' '.join(args))
+        if not os.path.isfile(path):
+            raise Violation("{}: 'save' did not write the graph".format(what))
+        text = open(path).read()
+        if gtype == 'bipartite':
+            L, R, edges = _read_matrix(text)
+            G = catalog.G_bip({'L': L, 'R': R, 'edges': edges})
+        elif gtype == 'dag':
+            n, edges = _read_kthlist(text)
+            G = catalog.G_dag({'n': n, 'edges': edges})
+        else:
+            n, edges = _read_kthlist(text)
+            G = catalog.G_simple({'n': n, 'edges': edges})
+        k = int(pre[-1]) if pre and pre[-1].lstrip('-').isdigit() else None
+        if name == 'kcolor':
+            Flib = cnfgen.GraphColoringFormula(G, k, formula_class=cls)
+        elif name == 'tiling':
+            Flib = cnfgen.Tiling(G, formula_class=cls)
+        elif name == 'matching':
+            Flib = cnfgen.PerfectMatchingPrinciple(G, formula_class=cls)
+        elif name == 'tseitin':
+            Flib = cnfgen.TseitinFormula(G, [1] + [0] * (G.order() - 1), formula_class=cls)
+        elif name == 'kclique':
+            Flib = cnfgen.CliqueFormula(G, k, formula_class=cls)
+        elif name == 'domset':
+            Flib = cnfgen.DominatingSet(G, k, formula_class=cls)
+        elif name == 'op':
+            Flib = cnfgen.GraphOrderingPrinciple(G, formula_class=cls)
+        elif name == 'iso':
+            Flib = cnfgen.GraphAutomorphism(G, formula_class=cls)
+        elif name == 'php':
+            Flib = cnfgen.GraphPigeonholePrinciple(G, formula_class=cls)
+        elif name == 'subsetcard':
+            Flib = cnfgen.SubsetCardinalityFormula(G, formula_class=cls)
+        elif name == 'peb':
+            Flib = cnfgen.PebblingFormula(G, formula_class=cls)
+        else:
+            Flib = cnfgen.StoneFormula(G, k, formula_class=cls)
+        same_formula(F, Flib, what)
+    labels = [tool, name, 'saved'] + [t for t in spec if t in ('plantclique', 'addedges', 'splitedges', 'plantbiclique')]
+    return Outcome(labels=labels, nontrivial=len(F) >= 2)
+
+
+@st.composite
+def strat_saved(draw):
+    from vlib import argv_gen
+    name = draw(st.sampled_from(['kcolor', 'tiling', 'matching', 'tseitin', 'kclique', 'domset', 'op', 'iso', 'php', 'subsetcard', 'peb', 'stone']))
+    pre = {'kcolor': [str(draw(st.integers(1, 3)))], 'tseitin': ['first'], 'kclique': [str(draw(st.integers(0, 3)))],
+           'domset': [str(draw(st.integers(1, 2)))], 'stone': [str(draw(st.integers(1, 2)))]}.get(name, [])
+    if name in ('php', 'subsetcard'):
+        gtype, spec = 'bipartite', draw(argv_gen.bipartite_spec())
+    elif name in ('peb', 'stone'):
+        gtype = 'dag'
+        spec = draw(argv_gen.dag_spec()) if name == 'peb' else draw(st.sampled_from([['path', '2'], ['path', '3'], ['tree', '1'], ['pyramid', '1']]))
+    else:
+        gtype, spec = 'simple', draw(argv_gen.simple_spec(nmax=5 if name in ('op', 'iso') else 6))
+    if name in ('op', 'iso') and spec[0] == 'gnp' and len(spec) > 3 and spec[3].isdigit():
+        pass
+    return {'tool': draw(st.sampled_from(['cnfgen', 'pbgen'])), 'name': name, 'pre': pre, 'gtype': gtype, 'spec': spec,
+            'seed': draw(st.integers(0, 10 ** 5))}
+
+
+SUBCHECKS.append(
+    SubCheck('saved', run_saved, strategy=strat_saved, quick=500, thorough=20000,
+             rule="twelve graph-taking sub-commands with random and deterministic graph constructions plus every modifier (plantclique, plantbiclique, addedges, splitedges) and 'save <format> <file>'; oracle: the saved file, read by the harness's own reader, is the graph the formula was built on: the tool's formula equals the library formula on that graph; non-trivial: >=2 rows",
+             required_labels=['saved', 'splitedges', 'addedges', 'plantclique', 'plantbiclique', 'php', 'peb']))
